@@ -122,7 +122,7 @@ func (cr *CheckRun) CheckTimeCodecs(job *EmittedJob) int {
 			o := e.Obls[len(e.Obls)-1]
 			o.Props = []string{prop, "C06", "C18"}
 		}
-		cr.VerifyFunc(e, em.Entry.Name, func(o *Obligation) bool { return strings.Contains(o.Name, "/declared-layout/") }, nil)
+		cr.VerifyFunc(e, em.Entry.Name, nil, nil)
 		if sources == 0 {
 			cr.Note("%s: %s formats / parses through no call the layout contract knows: not under contract", em.Entry.Name, relName(f))
 			continue
